@@ -18,6 +18,7 @@ DOC = {
         'C16.R3': 'every string fragment glob_to_regex emits for an operator starts with a character of the stop set (magic_chars + {?,*}); literal characters go through escape()',
         'C16.R4': 'the fixed prefix is lower-cased iff is_partial_match lower-cases the candidate (both controlled by case_insensitive)',
         'C16.R6': 'Pattern::regex_with anchors the full-match regex at both ends (^...$) and the prefix regex at the start (^...); matches / matches_partially use the anchored one, matches_prefix the prefix one',
+        'C16.R11': 'case folding survives pattern composition: a Pattern built from other Patterns (base directory + relative pattern, impl Add) is compiled with a case option derived from its operands, not with the defaults',
         'C16.R10': '`**` crosses every character a path can contain: the fragment emitted for `**` is `.*`, so the regex must be built with dot_matches_new_line(true) (or the fragment must carry its own (?s) flag); `*` and `?` are negated classes and match a newline anyway',
         'C16.R9': 'regex source text is edited at its end (anchor stripping, suffix tests) only with the escape state known: a trailing metacharacter is removed / recognised only after counting the backslashes before it (pattern.rs: regex_with, matches_subtree)',
         'C16.R8': 'the exclude-side pruning predicate of matches_dir holds for the whole subtree (re-evaluates C09.R9)',
@@ -43,6 +44,7 @@ def run(ctx):
     c09.r9(ctx, 'C16.R8')
     r9(ctx, lib)
     r10(ctx, lib)
+    r11(ctx, lib)
     if ctx.tier == 'thorough' and not getattr(ctx, 'sibling', None):
         from .. import sweep
         sweep.units(ctx, 'C16.R1')
@@ -402,3 +404,23 @@ def r10(ctx, lib):
     ctx.check(own_flag or bool(flag), rule, 'regex::Regex::new|dot-matches-newline', rn.where(), '`.` matches a newline in the regexes built for patterns',
               'the glob translator emits `.*` for `**` but the regex is built without dot_matches_new_line: `**` stops at a newline in a file or directory name, while `*` ([^/]*) crosses it: '
               "`--exclude '**/g'` does not exclude `a\\nb/g`, `--path '**/f'` misses `a\\nb/f`")
+
+
+def r11(ctx, lib):
+    rule = 'C16.R11'
+    adds = [b for p_, b in lib.bodies.items() if re.search(r'^<pattern::Pattern as std::ops::Add.*>::add$', p_)]
+    if not adds:
+        ctx.missing(rule, 'impl Add for Pattern')
+        return
+    ab = adds[0]
+    ctor = ab.calls(r'pattern::Pattern::(regex|regex_with|glob|glob_with|literal)$')
+    if not ctx.floor(rule, 'Pattern constructor in Pattern::add', len(ctor), 1, ab.where()):
+        return
+    c = ctor[0]
+    ok = c.path.endswith('_with') and len(c.args) > 1
+    if ok:
+        sl = backslice(ab, [c.args[1]])
+        ok = sl.has_call(r'is_case_insensitive$') or 'case_insensitive' in sl.field_names() and bool(sl.params)
+    ctx.check(ok, rule, ab.path + '|case-option-kept', c.where(), 'the concatenated pattern is compiled with the case option of its operands',
+              'the concatenated pattern is compiled with %s, i.e. the default (case-sensitive) options: with --ignore-case every relative --path / --exclude pattern, which is concatenated with the '
+              'base directory, matches case-sensitively again (`group . -i --path "a/*"` does not select A/x), while absolute patterns and --name fold the case' % c.path.rsplit('::', 1)[-1])
